@@ -140,3 +140,41 @@ pub fn count_chars(s: &str) -> usize {
     }
     n
 }
+
+/// M10: `str::contains("\r\n")` and `str::replace("\r\n", "\n")` -- the only patterns
+/// `parser/strings.rs::ml_literal_string` passes -- as plain byte loops (std's `&str` searcher pulls
+/// in `simd_contains`, the two-way searcher and `memchr`).  One constant-size allocation.
+pub fn contains_crlf(s: &str) -> bool {
+    let b = s.as_bytes();
+    let mut i = 0;
+    while i + 1 < b.len() {
+        if b[i] == b'\r' && b[i + 1] == b'\n' {
+            return true;
+        }
+        i += 1;
+    }
+    false
+}
+pub fn replace_crlf_with_lf(s: &str) -> String {
+    let b = s.as_bytes();
+    assert!(b.len() <= M2_CAP, "M10 model capacity");
+    let mut tmp = [0u8; M2_CAP];
+    let mut n = 0;
+    let mut i = 0;
+    while i < b.len() {
+        if b[i] == b'\r' && i + 1 < b.len() && b[i + 1] == b'\n' {
+            tmp[n] = b'\n';
+            i += 2;
+        } else {
+            tmp[n] = b[i];
+            i += 1;
+        }
+        n += 1;
+    }
+    let mut v: Vec<u8> = Vec::from(tmp);
+    // SAFETY: n <= M2_CAP; dropping the ASCII byte '\r' from valid UTF-8 leaves valid UTF-8
+    unsafe {
+        v.set_len(n);
+        String::from_utf8_unchecked(v)
+    }
+}
